@@ -622,6 +622,9 @@ impl<'a, 't, 'g> VGen<'a, 't, 'g> {
                     self.set_marker(&name);
                 }
             }
+            if let VKind::Fb(fi) = kind {
+                self.seen_insts.push((name.clone(), fi, self.cur_decl));
+            }
             scope.push(VarInfo { name: name.clone(), kind });
             out.push(vd(&name, vt.clone(), qq, init));
         }
@@ -1081,6 +1084,7 @@ impl<'a, 't, 'g> VGen<'a, 't, 'g> {
             let n = self.fresh_local();
             let f = self.t.below(self.fbs.len());
             vars.push(vd(&n, VariableType::InOut, DeclarationQualifier::Unspecified, InitialValueAssignmentKind::LateResolvedType(Type::from(self.fbs[f].name.as_str()))));
+            self.seen_insts.push((n.clone(), f, self.cur_decl));
             scope.push(VarInfo { name: n, kind: VKind::Fb(f) });
             self.ref_edges += 1;
         }
@@ -1281,7 +1285,7 @@ pub fn gen_unit_multi(t: &mut Tape, gates: &Gates, profile: &Profile, fault: Vec
         }
     }
     // sometimes one more function after the function blocks (it can take an instance by reference)
-    if nfb > 0 && profile.max_funcs > 0 && room(&out) && g.t.ratio(1, 4) {
+    if nfb > 0 && profile.max_funcs > 0 && room(&out) && g.t.ratio(1, 2) {
         g.gen_func(&mut out);
     }
     let np = g.t.count(if out.is_empty() { 1 } else { 0 }, profile.max_progs);
